@@ -79,7 +79,11 @@ class CNFizer(DagWalker):
                 elif not lit.is_false():
                     # Prune FALSE literals
                     simp.append(lit)
-            if simp:
+            if simp is not None:
+                if len(simp) == 0:
+                    # Every literal of the clause is false once tl
+                    # holds: the formula is unsatisfiable
+                    return CNFizer.FALSE_CNF
                 res.append(frozenset(simp))
         return frozenset(res)
 
